@@ -6,15 +6,13 @@ import (
 	"strings"
 
 	"go.lstv.dev/util/sem"
+	"verif/libdefaults"
 	"verif/mc"
 	"verif/oracle"
 )
 
 func reset() {
-	sem.MaxInputLength = 1024
-	sem.Formatter = sem.DefaultFormatter
-	sem.Parser = sem.DefaultParser[[]byte]
-	sem.ComparePreRelease = sem.DefaultComparePreRelease[string, string]
+	libdefaults.Sem()
 }
 
 type pairArg struct {
@@ -56,6 +54,21 @@ func probeHist(h histArg) (string, string) {
 	_ = sem.New(1, 2, 3, h.First.A).Compare(sem.New(1, 2, 3, h.First.B))
 	if k, d := probePre(h.Second); k != "" {
 		return "after_previous_call:" + k, fmt.Sprintf("after comparing (%q, %q): %s", h.First.A, h.First.B, d)
+	}
+	return "", ""
+}
+
+// reconfiguration history: a custom comparator is installed, the pair is compared, the default is restored, the pair is judged
+func probeReconf(p pairArg) (string, string) {
+	sem.ComparePreRelease = func(x, y string) int { return -sem.DefaultComparePreRelease(x, y) }
+	_ = sem.New(1, 2, 3, p.A, "b1").Compare(sem.New(1, 2, 3, p.B))
+	_, _ = sem.Compare("1.0.0-"+p.A, "1.0.0-"+p.B+"+x.1")
+	reset()
+	if k, d := probePre(p); k != "" {
+		return "after_reconfiguration:" + k, "after the same pair was compared under a user-installed comparator and the default was restored: " + d
+	}
+	if k, d := probeHelpers(p); k != "" {
+		return "after_reconfiguration:" + k, "after the same pair was compared under a user-installed comparator and the default was restored: " + d
 	}
 	return "", ""
 }
@@ -386,6 +399,22 @@ func main() {
 					cnt(w, U3[i], U3[j])
 					pPre.Do(w, pairArg{A: U3[i], B: U3[j]})
 					pHelp.Do(w, pairArg{A: U3[i], B: U3[j]})
+				}
+			})
+		})
+		pRc := mc.NewProbe(r, "reconfiguration_history", nil, probeReconf)
+		r.Phase("serial: for every ordered pair of pre-releases of length <= 2 and of the example chain: compare under a user-installed comparator, restore the default, judge the same pair", "complete for depth 2", func() {
+			U2 := append([]string{""}, oracle.PreReleases("0129aB-.", 2)...)
+			U2 = append(U2, "alpha", "alpha.1", "alpha.beta", "beta", "beta.2", "beta.11", "rc.1")
+			r.Serial(func(w *mc.W) {
+				for _, a := range U2 {
+					for _, b := range U2 {
+						if a == "" || b == "" {
+							continue
+						}
+						w.Point()
+						pRc.Do(w, pairArg{A: a, B: b})
+					}
 				}
 			})
 		})
